@@ -194,6 +194,7 @@ def r06d(ctx):
     # Len / Lengths pass-through guards
     ln = model.cls("Len", "_reductions")
     fn = model.method(ln, "_simplify_down", own=True).node
+    lndefs = flow.Defs(fn)
     for i, p in enumerate(flow.returns(fn)):
         v = p.stmt.value
         if v is None:
@@ -201,7 +202,9 @@ def r06d(ctx):
         txt = unparse(v)
         if not (isinstance(v, ast.Call) and dotted(v.func) == "Len"):
             continue
-        arg = unparse(v.args[0]) if v.args else ""
+        arg = unparse(lndefs.expand(v.args[0], at=p.stmt)) if v.args else ""
+        if "self.frame.dependencies()" in arg and not isinstance(v.args[0], ast.GeneratorExp):
+            arg = "child"  # an input of the frame (held in a local)
         if arg in ("child", "self.frame.frame"):
             facts = [unparse(t) for t, pol in flow.facts(p) if pol]
             need = "self.frame._is_length_preserving" if arg == "child" else "self.frame.frame._is_length_preserving"
